@@ -554,7 +554,7 @@ fn run(scripts: &str, trace: &str, opts: &Opts) -> Res<()> {
                             ("panic", vec![])
                         }
                     };
-                    tr.emit(json!({"ev": "Cmd", "cmd": vj(&cmd), "res": res, "text": String::from_utf8_lossy(&reply),
+                    tr.emit(json!({"ev": "Cmd", "cmd": vj(&cmd), "res": res, "text": reply.escape_ascii().to_string(),
                         "obs": {"reply": bj(&reply)}}))?;
                 }
                 "Sweep" => {
@@ -578,7 +578,7 @@ fn run(scripts: &str, trace: &str, opts: &Opts) -> Res<()> {
                             }
                         };
                         tr.emit(json!({"ev": "SweepCmd", "pos": pos, "cmd": vj(&cmd), "res": res,
-                            "text": String::from_utf8_lossy(&reply), "obs": {"reply": bj(&reply)}}))?;
+                            "text": reply.escape_ascii().to_string(), "obs": {"reply": bj(&reply)}}))?;
                     }
                     tr.emit(json!({"ev": "SweepEnd"}))?;
                 }
